@@ -103,7 +103,16 @@ func peach(fm *Frame, opts peachOpt, f Callable, inputs Inputs) error {
 			return
 		}
 		if workerSema != nil {
-			workerSema.Acquire(ctx, 1)
+			acquireErr := workerSema.Acquire(ctx, 1)
+			// A callback may have broken or failed while we were blocked in
+			// Acquire; test the flag again so that no further callback is
+			// started (this makes &num-workers=1 equivalent to each).
+			if atomic.LoadInt32(&broken) != 0 {
+				if acquireErr == nil {
+					workerSema.Release(1)
+				}
+				return
+			}
 		}
 		wg.Add(1)
 		go func() {
